@@ -180,6 +180,9 @@ func (b *RawBackend) Close() {
 	_ = b.ln.Close()
 	b.mu.Lock()
 	for c := range b.conns {
+		if tc, ok := c.(*net.TCPConn); ok {
+			_ = tc.SetLinger(0) // teardown only: avoid TIME_WAIT on either side
+		}
 		_ = c.Close()
 	}
 	for _, ex := range b.scripts {
@@ -485,6 +488,11 @@ func NewSocketLab(strategy string, o SocketOpts) (*SocketLab, error) {
 }
 
 func (l *SocketLab) Close() {
+	// backends first (they reset their connections), so that the proxy's idle connections die
+	// without an active close that would park an ephemeral port in TIME_WAIT
+	for _, b := range l.Backends {
+		b.Close()
+	}
 	if l.Server != nil {
 		ctx, cancel := context.WithTimeout(context.Background(), 2*time.Second)
 		_ = l.Server.Shutdown(ctx)
@@ -597,7 +605,16 @@ func Dial(addr string) (*ClientConn, error) {
 	return &ClientConn{C: c, BR: bufio.NewReaderSize(c, 64<<10)}, nil
 }
 
-func (cc *ClientConn) Close() { _ = cc.C.Close() }
+// Close resets the connection (SO_LINGER 0) instead of closing it gracefully: the harness opens
+// hundreds of thousands of loopback connections, and a graceful active close would leave each
+// of them in TIME_WAIT for 60 s and exhaust the ephemeral port range. Callers close only after
+// they have read everything they wanted.
+func (cc *ClientConn) Close() {
+	if tc, ok := cc.C.(*net.TCPConn); ok {
+		_ = tc.SetLinger(0)
+	}
+	_ = cc.C.Close()
+}
 
 // Send writes the request. Body parts are written as separate socket writes.
 func (cc *ClientConn) Send(r *RawRequest) error {
